@@ -106,6 +106,16 @@ def _assert_site(prog, fn, rg, b, t, eb):
             lb = _value_lower_bound(prog, fn, b, expr_str(a))
             if lb >= rb0[0]:
                 return Site(fn, b, kind, t["span"]["line"], txt, "discharged", "D6 %s >= %d by a test still in force" % (expr_str(a)[:60], lb))
+            # ... `v.len() - c` under `!v.is_empty()` / a length test still in force
+            a_ = a
+            while a_[0] in ("cast", "ref"):
+                a_ = a_[2]
+            if a_[0] == "call" and (callee_name(a_) or "").split("::")[-1] == "len" and len(a_[3]) == 1:
+                srcs = expr_str(a_[3][0])
+                if re.match(r"^&?(mut )?[\w.]+$", srcs):
+                    lb2 = _len_lower_bound(prog, fn, b, srcs)
+                    if lb2 >= rb0[0]:
+                        return Site(fn, b, kind, t["span"]["line"], txt, "discharged", "D6 len(%s) >= %d by a test still in force" % (srcs, lb2))
         if m.group(1) == "Add" and (rg.ty_of(a) or rg.ty_of(bb)) == "usize":
             # D7: lengths of at most two distinct live allocations plus a small constant: the allocations
             # are disjoint parts of one address space, their sizes sum well below usize::MAX
@@ -233,6 +243,12 @@ def _call_site(prog, fn, rg, b, t, eb, ebf):
                         return Site(fn, b, k, line, txt, "discharged", "D6 split point len(x) - c <= len(x) (the subtraction is checked on its own)")
                 rr = rg.of(a1)
                 need = rr[1] if rr and rr[0] >= 0 else None
+        if nm.split("::")[-1] in ("remove", "swap_remove") and len(e[3]) > 1:
+            a1s = e[3][1]
+            if a1s[0] == "proj" and a1s[1][0] == "binop" and a1s[1][1] == "SubWithOverflow" and a1s[2] == ".0":
+                inner, c_ = a1s[1][2], a1s[1][3]
+                if inner[0] == "call" and (callee_name(inner) or "").split("::")[-1] == "len" and inner[3] and c_[0] == "const" and isinstance(c_[1], int) and c_[1] >= 1 and expr_str(inner[3][0]).lstrip("&").replace("mut ", "") == src.lstrip("&").replace("mut ", ""):
+                    return Site(fn, b, k, line, txt, "discharged", "D6 index len(x) - %d < len(x) (the subtraction is checked on its own)" % c_[1])
         if need is not None and re.match(r"^&?(mut )?[\w.*()]+$", src):
             s2 = src.replace("(", "").replace(")", "").replace(".*", "")
             lb = _len_lower_bound(prog, fn, b, s2)
